@@ -60,7 +60,16 @@ def main():
     # bytes never equal str (the engine once compared them by content)
     eng.contracts[S + "bytes_vs_str"] = dict(params={"b": "bytes"}, returns="bool", ensures="result == True",
                                              modifies=[], file="selftest")
-    expect = {"bytes_vs_str": True, "default_bad": False, "chain_ok": True, "chain_bad": False, "append_ok": True, "append_bad": False, "count_ok": True, "count_bad": False, "mod_ok": True, "idx_bad": False, "tail_ok": True}
+    # rebinding a module variable: a write outside an empty frame, and its value at entry is not the import-time one
+    eng.contracts[S + "global_bad"] = dict(params={"x": "int"}, returns="int", ensures="result == x", modifies=[],
+                                           file="selftest")
+    # a slice of a list of unknown length is a view of the same elements
+    eng.contracts[S + "drop_last"] = dict(params={"log": "list[entry]"}, returns="int",
+                                          ensures="result == (len(log) - 1 if len(log) > 0 else 0)", modifies=[], file="selftest")
+    # a conjunction of simple comparisons is one condition (2 paths, not 3)
+    eng.contracts[S + "both_tests"] = dict(params={"a": "int", "lo": "int", "hi": "int"}, returns="int",
+                                           ensures="result == (1 if lo <= a and a <= hi else 0)", modifies=[], file="selftest")
+    expect = {"global_bad": False, "drop_last": True, "both_tests": True, "bytes_vs_str": True, "default_bad": False, "chain_ok": True, "chain_bad": False, "append_ok": True, "append_bad": False, "count_ok": True, "count_bad": False, "mod_ok": True, "idx_bad": False, "tail_ok": True}
     rc = 0
     for name, want in sorted(expect.items()):
         r = eng.verify(S + name)
